@@ -267,6 +267,9 @@ impl<'a> Ingestion<'a> {
 
         log::info!("Finished ingestion writer");
 
+        #[cfg(feature = "verif")]
+        crate::verif::sched("ingest:before_register");
+
         // Acquire locks for version registration. We must hold both the
         // compaction state lock and version history lock to safely modify
         // the tree's version.
